@@ -650,10 +650,11 @@ def check(prop, tier, only=None, keep=False):
                     size = (len(pu) + nb - 1) // nb
                     queue = [(pu[i:i + size], False) for i in range(0, len(pu), size)]
                 bi = 0
+                starved = []
                 while queue:
                     batch, is_retry = queue.pop(0)
                     bi += 1
-                    log("[check]   batch %d (%d more queued): %d obligation(s)%s" % (bi, len(queue), len(batch), " [retry of a lost batch]" if is_retry else ""))
+                    log("[check]   batch %d (%d more queued): %d obligation(s)%s" % (bi, len(queue), len(batch), " [retry]" if is_retry else ""))
                     try:
                         res, out, wall, tl = run_kani(cat, dst, scratch, pkg, batch, timeout, min(jobs, len(batch)), feats, cargs)
                     except Undecided as e:
@@ -670,7 +671,20 @@ def check(prop, tier, only=None, keep=False):
                             for u in batch:
                                 res[u["name"]] = dict(status="missing", checks=[], reason="batch lost: " + str(e)[-300:].replace("\n", " | "))
                     tools.update(tl)
+                    # an obligation that came back without any check result well before its time limit was
+                    # killed for memory (by CBMC's own address-space limit or by the group watchdog when many
+                    # large queries peak together): run it again, once, at the end with three solvers at a time
+                    if not is_retry:
+                        for u in batch:
+                            r = res.get(u["name"])
+                            if r and r.get("status") != "missing" and not r.get("checks") and (r.get("duration_s") or 0) < 0.9 * timeout:
+                                starved.append(u)
+                                res.pop(u["name"])
                     results.update(res)
+                    if not queue and starved:
+                        log("[check]   %d obligation(s) came back without a result before their time limit; running them again 3 at a time" % len(starved))
+                        queue = [(starved[i:i + 3], True) for i in range(0, len(starved), 3)]
+                        starved = []
         if verus_units:
             import nvverus
             vres, vassume, vtools = nvverus.run(cat, VERIF, REPO, scratch, verus_units)
